@@ -365,11 +365,22 @@ func LastOnLine(p *load.Prog, r *oblig.Report, rule string, helper *ssa.Function
 					continue
 				}
 				okUse := true
+				builderWrites, builderBad := 0, ""
 				for _, ref := range *refs {
 					switch x := ref.(type) {
 					case *ssa.DebugRef, *ssa.MakeInterface:
 					case *ssa.BinOp:
 						if x.Op != token.ADD {
+							okUse = false
+						}
+					case *ssa.Call:
+						// written into a strings.Builder: whatever is written into the same builder next starts a new line
+						if isBuilderWrite(x) && len(x.Common().Args) == 2 && x.Common().Args[1] == ssa.Value(call) {
+							builderWrites++
+							if why := nextBuilderWriteStartsLine(x); why != "" {
+								builderBad = why
+							}
+						} else {
 							okUse = false
 						}
 					default:
@@ -381,6 +392,14 @@ func LastOnLine(p *load.Prog, r *oblig.Report, rule string, helper *ssa.Function
 					}
 				}
 				if !okUse {
+					continue
+				}
+				if builderWrites > 0 && builderWrites == len(*refs) {
+					if builderBad != "" {
+						r.Bad(rule, construct, p.Pos(call.Pos()), builderBad)
+					} else {
+						r.OK(rule, construct, p.Pos(call.Pos()), "last-on-line (builder)", "whatever is written into the same builder after the comment starts with a line break")
+					}
 					continue
 				}
 				// every string built in f in which the comment occurs: nothing follows it on its line
@@ -452,4 +471,86 @@ func hasRec(r *oblig.Report, rule, construct string) bool {
 		}
 	}
 	return false
+}
+
+func isBuilderWrite(c *ssa.Call) bool {
+	cal := c.Common().StaticCallee()
+	return cal != nil && cal.String() == "(*strings.Builder).WriteString"
+}
+
+// nextBuilderWriteStartsLine: on every path after the given write into a strings.Builder, the next thing done with
+// that builder is a write of text that begins with a line break, or reading the result; "" when so, else the reason.
+func nextBuilderWriteStartsLine(w *ssa.Call) string {
+	recv := w.Common().Args[0]
+	type pos struct {
+		b *ssa.BasicBlock
+		i int
+	}
+	seen := map[*ssa.BasicBlock]bool{}
+	work := []pos{{w.Block(), indexOf(w) + 1}}
+	for len(work) > 0 {
+		cur := work[len(work)-1]
+		work = work[:len(work)-1]
+		stopped := false
+		for i := cur.i; i < len(cur.b.Instrs); i++ {
+			c, ok := cur.b.Instrs[i].(*ssa.Call)
+			if !ok || len(c.Common().Args) == 0 || c.Common().Args[0] != recv {
+				continue
+			}
+			cal := c.Common().StaticCallee()
+			if cal == nil {
+				return "the builder the source comment was written into is handed to an unknown callee"
+			}
+			switch cal.String() {
+			case "(*strings.Builder).String", "(*strings.Builder).Len":
+				stopped = true
+			case "(*strings.Builder).WriteString":
+				ok := false
+				for _, t := range Templates(c.Common().Args[1], nil) {
+					t = Normalise(t)
+					ok = len(t) > 0 && t[0].Val == nil && strings.HasPrefix(t[0].Lit, "\n")
+					if !ok {
+						break
+					}
+				}
+				if k, isC := c.Common().Args[1].(*ssa.Const); isC && k.Value != nil {
+					ok = strings.HasPrefix(constant.StringVal(k.Value), "\n")
+				}
+				if !ok {
+					return "after the source comment, text that does not begin with a line break is written into the same builder: it becomes comment text"
+				}
+				stopped = true
+			case "(*strings.Builder).WriteByte", "(*strings.Builder).WriteRune":
+				k, isC := c.Common().Args[1].(*ssa.Const)
+				if !isC || k.Value == nil || k.Int64() != '\n' {
+					return "after the source comment, a character that is not a line break is written into the same builder"
+				}
+				stopped = true
+			default:
+				return "the builder the source comment was written into is used by " + cal.String()
+			}
+			if stopped {
+				break
+			}
+		}
+		if stopped {
+			continue
+		}
+		for _, s := range cur.b.Succs {
+			if !seen[s] {
+				seen[s] = true
+				work = append(work, pos{s, 0})
+			}
+		}
+	}
+	return ""
+}
+
+func indexOf(in ssa.Instruction) int {
+	for i, x := range in.Block().Instrs {
+		if x == in {
+			return i
+		}
+	}
+	return 0
 }
